@@ -3454,7 +3454,11 @@ fn array_exotic_define_own_property(
         PropertyKey::String(s) if s == &StaticJsStrings::LENGTH => {
             // a. Return ? ArraySetLength(A, Desc).
 
-            array_set_length(obj, desc, context)
+            // NOTE: Writing `length` can delete elements and can be rejected, so an inline cache
+            // must not replay it as a plain store into the slot.
+            let result = array_set_length(obj, desc, context);
+            context.slot().attributes |= crate::object::shape::slot::SlotAttributes::NOT_CACHEABLE;
+            result
         }
         // 3. Else if P is an array index, then
         PropertyKey::Index(index) => {
